@@ -25,7 +25,9 @@ RULE = ("one unit = one (volume, option set, variant): volumes (130,3,2) "
         "uint8, (260,2,1) uint8 [3 scales], (130,70,1) uint16 with 1x1x4 mm "
         "voxels, (130,2,2) float32 with header slope 2, (130,3,2) uint16 "
         "labels converted as segmentation / compressed_segmentation, "
-        "(130,20,40) and (40,130,20) uint8 with anisotropic voxels; "
+        "(130,20,40) and (40,130,20) uint8 with anisotropic voxels, (20,20,20) "
+        "uint8 cut into 3x3x3 chunks of 8^3 (--target-chunk-size 8; sharded "
+        "and flat option sets, no all-in-one counterpart); "
         "downscaling method {explicit, auto}; option sets {default, --flat --no-gzip, --no-gzip, "
         "--sharding 1,1,0, value mapping (--ignore-scaling --input-min "
         "--input-max)}; downscaling {explicit, auto, average with "
@@ -64,6 +66,10 @@ VOLUMES = {
                    "vox": (1, 1, 4)},
     "u8-aniso-x": {"shape": (40, 130, 20), "dtype": "uint8",
                    "vox": (4, 1, 2)},
+    # 3x3x3 chunks of 8^3 (generate-scales-info --target-chunk-size 8): the
+    # grid is not a power of two along any axis; no all-in-one counterpart
+    "u8-20cube-tcs8": {"shape": (20, 20, 20), "dtype": "uint8",
+                       "vox": (1, 1, 1), "tcs": 8},
 }
 METHODS = ("explicit", "auto", "average-outside")
 OPTSETS = {"default": [], "flat-nogzip": ["--flat", "--no-gzip"],
@@ -105,12 +111,13 @@ def commands(vol, optset, ws, mmap, method="explicit"):
     else:
         dsm = ["--downscaling-method", "majority" if seg else "stride"]
     vm = VALUEMAP if optset == "valuemap" else []
+    tcs = (["--target-chunk-size", str(v["tcs"])] if v.get("tcs") else [])
     cmds = {
         "gen-info": ("volume_to_precomputed",
                      ["--generate-info", nii, D] + shard + vm, None),
         "gen-scales": ("generate_scales_info",
-                       [os.path.join(D, "info_fullres.json"), D] + typ,
-                       None),
+                       [os.path.join(D, "info_fullres.json"), D] + typ
+                       + tcs, None),
         "vol2pre": ("volume_to_precomputed",
                     [nii, D] + o + shard + mm + vm, D),
         "compute-scales": ("compute_scales", [D] + o + dsm, D),
@@ -118,10 +125,10 @@ def commands(vol, optset, ws, mmap, method="explicit"):
         "prep-convert": ("generate_scales_info",
                          [os.path.join(D, "info_fullres.json"), D3]
                          + (["--type", "segmentation"] if seg
-                            else ["--encoding", "raw"]), None),
+                            else ["--encoding", "raw"]) + tcs, None),
         "convert": ("convert_chunks", [D, D3] + o, D3),
     }
-    if optset != "sharded":
+    if optset != "sharded" and not v.get("tcs"):
         cmds["pyramid"] = ("volume_to_precomputed_pyramid",
                            [nii, D2] + o + typ + dsm + mm + vm, D2)
     return cmds
@@ -493,7 +500,10 @@ def units(tier):
         for optset in OPTSETS:
             if optset == "sharded" and "aniso" in vol:
                 continue        # sharding needs cubic chunks
-            big = vol in ("u8-aniso-z", "u8-aniso-x")
+            big = vol in ("u8-aniso-z", "u8-aniso-x", "u8-20cube-tcs8")
+            if VOLUMES[vol].get("tcs") and optset not in ("sharded",
+                                                          "flat-nogzip"):
+                continue
             for mmap in (False, True):
                 if mmap and (tier == "quick" and optset != "default"):
                     continue
